@@ -8,7 +8,7 @@ func init() {
 	Runners["C06"] = queueRunner(func(p *harness.QProgram) Result { return RunC06(p, false) })
 	harness.Specs["C06"] = &harness.PropSpec{
 		ID: "C06", Test: "TestC06", Kind: "queue", Level: "fault_enumeration",
-		Quick: 640, Thorough: 40000,
+		Quick: 320, Thorough: 40000,
 		Rule: "evaluations = generated producer/consumer histories (as C05, incl. queue/file reopen points which are checked by drain probes) recorded on the " +
 			"simulated disk with markers around every writer call, ACK and queue close; for every op-log position after queue creation all crash images (subsets " +
 			"of un-synced writes, torn header) are reopened through txfile open + NewStandaloneDelegate + pq.New and drained: the delivered sequence must be " +
